@@ -623,6 +623,7 @@ func completedWritesThenRead(r *Result, rng *rand.Rand, rounds int) {
 	absnfs.VerifClockOff()
 	dh, _ := w.handleFor("/d", rootCred())
 	short, first := 0, ""
+	wrong, firstWrong := 0, ""
 	for i := 0; i < rounds; i++ {
 		name := fmt.Sprintf("w%d", i)
 		h, st := w.srv.Lookup(dh, name, rootCred())
@@ -681,12 +682,34 @@ func completedWritesThenRead(r *Result, rng *rand.Rand, rounds int) {
 			if first == "" {
 				first = fmt.Sprintf("round %d: %d clients each wrote %d bytes of /d/%s at disjoint offsets and all were answered NFS3_OK; the READ of the whole file that followed returned %d of %d bytes", i, writers, chunk, name, got, want)
 			}
+		} else {
+			// contents: every serial order of non-overlapping writes leaves each payload in its own range
+			// (Props.C29.written_range_reads_back / disjoint_writes_any_order)
+			data := rep.Data[104:]
+			if len(data) > got {
+				data = data[:got]
+			}
+			for k, ok := range okWrites {
+				if !ok || (k+1)*chunk > len(data) {
+					continue
+				}
+				if !bytes.Equal(data[k*chunk:(k+1)*chunk], bytes.Repeat([]byte{byte('a' + k)}, chunk)) {
+					wrong++
+					if firstWrong == "" {
+						firstWrong = fmt.Sprintf("round %d: %d clients wrote /d/%s at disjoint offsets, all answered NFS3_OK; bytes [%d,%d) read back as %q, not the payload of writer %d", i, writers, name, k*chunk, (k+1)*chunk, data[k*chunk:(k+1)*chunk], k)
+					}
+					break
+				}
+			}
 		}
 		w.srv.NFSCall(12, rootCred(), argDirop(dh, name))
 	}
 	r.noteCase("completed-writes-then-read", true)
 	if short > 0 {
 		r.violate(Violation{Class: "read-misses-completed-writes", What: fmt.Sprintf("%d of %d rounds; %s", short, rounds, first), Case: c29Case{Cached: false}, Ops: []string{"completed-writes-then-read"}})
+	}
+	if wrong > 0 {
+		r.violate(Violation{Class: "read-differs-from-every-serial-order", What: fmt.Sprintf("%d of %d rounds; %s", wrong, rounds, firstWrong), Case: c29Case{Cached: false}, Ops: []string{"completed-writes-then-read"}})
 	}
 }
 
